@@ -742,12 +742,48 @@ def check_fasta(ctx, rng, ali, rows, seqs, classes, exp_gapped, ren):
         if not isinstance(b, classes[i]) or str(b) != shown:
             ctx.fail("fasta_roundtrip", "sequence %d after FASTA round trip: %r, displayed symbols %r" % (i, b, shown))
     check_valid(ctx, back, "fasta.get_alignment result")
+    # other gap characters in the file (several at once): the same alignment must come back
+    if rng.random() < 0.35:
+        chars = [("_", "."), (".", "_"), ("_",), (".", "~", "_")][int(rng.integers(4))]
+        f2 = fasta.FastaFile(chars_per_line=cpl)
+        for k, (name, row) in enumerate(f.items()):
+            f2[name] = "".join((chars[(k + j) % len(chars)] if ch == "-" and (k + j) % 3 else ch) for j, ch in enumerate(row))
+        agc = chars if rng.random() < 0.5 else "".join(chars)
+        ctx.log("fasta_additional_gap_chars", list(chars))
+        ctx.op("fasta.get_alignment[additional_gap_chars]")
+        try:
+            back2 = fasta.get_alignment(f2, additional_gap_chars=agc, seq_type=seq_type) if seq_type is not None \
+                else fasta.get_alignment(f2, additional_gap_chars=agc)
+        except ValueError as e:
+            ctx.fail("fasta_roundtrip", "get_alignment(additional_gap_chars=%r) raised %r" % (agc, e))
+        ctx.oracle("fasta_roundtrip")
+        if not (isinstance(back2.trace, np.ndarray) and back2.trace.tolist() == ren):
+            ctx.fail("fasta_roundtrip", "trace differs when gaps are written with additional gap characters %r" % (agc,),
+                     got=np.asarray(back2.trace).tolist(), expected=ren)
 
 
 def case_conv(rng, ctx):
     ali, rows, seqs, meta = build_alignment(ctx, rng)
     check_valid(ctx, ali, "driver-built alignment (generator audit)")
     check_conversions(ctx, rng, ali, rows, seqs)
+    # an alignment owns its list of sequences: neither the list passed by the caller nor the list of an
+    # alignment derived from it (slice, gap removal) may be the same object
+    if rng.random() < 0.4:
+        ctx.oracle("sequence_list_not_shared")
+        ctx.op("alignment_list_independence")
+        given = list(seqs)
+        a1 = align.Alignment(given, np.asarray(ali.trace).copy())
+        before = [str(x) if all(isinstance(y, str) for y in x.symbols) else list(x.symbols) for x in a1.sequences]
+        shown = a1.get_gapped_sequences() if all(_single_char(x.get_alphabet()) for x in seqs) else None
+        given.reverse()
+        given.pop()
+        sub = a1[:max(1, len(a1.trace) // 2)]
+        if len(sub.sequences) == len(a1.sequences) and len(a1.sequences) > 0:
+            sub.sequences[0] = sub.sequences[-1]
+        after = [str(x) if all(isinstance(y, str) for y in x.symbols) else list(x.symbols) for x in a1.sequences]
+        if after != before or (shown is not None and a1.get_gapped_sequences() != shown):
+            ctx.fail("sequence_list_not_shared", "changing the list passed to Alignment() / the sequence list of a slice changed the alignment",
+                     before=before, after=after)
 
 
 # ===================================================================== CIGAR
